@@ -54,6 +54,11 @@ def run(ctx):
             us = rng.sample(UNITS, ctx.n(5, 16))
             jobs.append({'op': 'estimate', 'lib': lib, 'from_smiles': smi, 'Ts': [298.15, round(rng.uniform(300, 900), 1)],
                          'props': ('cp', 'h', 's', 'g'), 'dim': {'units': us, 'elements': True}})
+    # spellings with hydrogens written inside brackets (explicit H counts, stereo centres, explicit [H] atoms)
+    for lib in [l for l in libs if l in molgen.GAS_LIBS]:
+        for smi in ['[CH3][CH3]', '[H]C([H])([H])C', 'C[C@H](O)CC', '[CH3]C', 'C[CH2]O', '[CH3][CH2][OH]', 'C[C@@H](C)CC', '[CH4]', 'C([H])([H])=C']:
+            jobs.append({'op': 'estimate', 'lib': lib, 'from_smiles': smi, 'Ts': [298.15, 500.0], 'props': ('cp', 'h', 's', 'g'),
+                         'dim': {'units': rng.sample(UNITS, 3), 'elements': True}})
     # single-group correlations through a unit vector (no elements)
     infos = vlib.run_impl_sharded('thermo', [{'op': 'libinfo', 'lib': s} for s in libs], timeout=900)
     for lib, info in zip(libs, infos):
@@ -62,6 +67,39 @@ def run(ctx):
             lo, hi = g['range'] or (min(g['Ts']), max(g['Ts']))
             jobs.append({'op': 'estimate', 'lib': lib, 'mapping': [[g['name'], 1]], 'Ts': [lo, round(rng.uniform(lo, hi), 1), hi],
                          'props': ('cp', 'h', 's', 'g'), 'dim': {'units': rng.sample(UNITS, ctx.n(4, 16)), 'elements': False}})
+    # the group correlations themselves (incl. groups without heat-capacity data, at temperatures other than T_ref)
+    gjobs = []
+    for lib, info in zip(libs, infos):
+        gs = [g for g in info.get('groups', []) if g['has'] and g.get('H') and g.get('S')]
+        notab = [g for g in gs if not g.get('Ts')]
+        for g in rng.sample(gs, min(ctx.n(4, 40), len(gs))) + rng.sample(notab, min(ctx.n(4, 40), len(notab))):
+            if g.get('Ts'):
+                lo, hi = g['range'] or (min(g['Ts']), max(g['Ts']))
+                Ts = [lo, round(rng.uniform(lo, hi), 1), hi]
+            else:
+                Ts = [g['T_ref'], 300.0, 298.15, 450.0]
+            gjobs.append({'op': 'groupdim', 'lib': lib, 'name': g['name'], 'Ts': Ts, 'units': rng.sample(UNITS, 3)})
+    for job, r in zip(gjobs, c01.run_by_lib(gjobs)):
+        if 'vals' not in r:
+            ctx.broken.append('implementation child failed: %s' % str(r)[:300])
+            continue
+        key = 'groupdim:%s|%s' % (job['lib'], job['name'])
+        ctx.count(key)
+        for ti, T in enumerate(job['Ts']):
+            nd = {p: r['vals'][p][ti] for p in ('cp', 'h', 's')}
+            for u in job['units']:
+                Ru = r['Rtab'][u + '/K']
+                d = {k: r['dim'][u][k][ti] for k in r['dim'][u]}
+                for nm, p, want in (('get_H', 'h', lambda v: v * T * Ru), ('get_S', 's', lambda v: v * Ru), ('get_Cp', 'cp', lambda v: v * Ru)):
+                    if 'exc' in nd[p] or nd[p]['v'] is None:
+                        continue
+                    got = d[nm]
+                    if 'exc' in got or got['v'] is None or abs(got['v'] - want(nd[p]['v'])) > 1e-12 * (1 + abs(got['v'])):
+                        ctx.violate(key + '|' + nm, '%s of a group correlation is not the non-dimensional value times R (and T)' % nm,
+                                    dict(job, T=T, unit=u), want(nd[p]['v']), got)
+                if all('exc' not in d[k] and d[k]['v'] is not None for k in ('get_H', 'get_S', 'get_G')):
+                    if abs(d['get_G']['v'] - (d['get_H']['v'] - T * d['get_S']['v'])) > 1e-10 * (1 + abs(d['get_H']['v']) + abs(T * d['get_S']['v'])):
+                        ctx.violate(key + '|G', 'G != H - T*S for a group correlation', dict(job, T=T, unit=u), d['get_H']['v'] - T * d['get_S']['v'], d['get_G'])
     jobs.sort(key=lambda j: j['lib'])
     results = c01.run_by_lib(jobs)
     dimcases, elcases = [], []
